@@ -1524,7 +1524,8 @@ impl Scenario for C08 {
         vec![
             "a Reset Query (version >= 1) whose header field 'zero' is not zero is a well-formed query and gets its data response: RFC 8210 section 5 says such fields MUST be ignored on receipt (for version 0, RFC 6810 only says MAY, so version 0 queries keep the field at zero)",
             "while the source reports ready() == false a well-formed query gets exactly one Error PDU (the statement does not list this case; this is what the code documents) - toggled in the dynamic class",
-            "the second connection's handshake is completed before the main client sends anything, so that source calls can be attributed to a connection without relying on how the server clones its source",
+            "the second connection's handshake is completed before the main client sends anything, so that source calls can be attributed to a connection without relying on how the server clones its source; when both connections talk at the same time (static, ready source only) the run holds if some attribution of the Full/Diff calls explains both outputs",
+            "the server obtains the data of every response from a full()/diff() call made for that query, and the expected response is what that call returned (PayloadSource is the only way to the data, and the source may change without a notification): a server answering from a cache of its own without asking the source would be reported (wrong-source-call) even if its cache were right",
             "notify() on a live, framed connection must be followed by a Serial Notify by the time the system is quiescent (bursts may be coalesced: one PDU written after the last call is enough; a call that the client's EOF overtakes before the server runs again is forgiven; a connection parked inside an incomplete query is exempt)",
             "erroneous units that are exactly one 8-byte header long (unknown type, other version, too-new version) may appear anywhere and the queries after them must still be answered; an erroneous unit longer than its header (wrong length, Serial Query with a bad version) leaves the stream unframed, so at most one of those per script, placed last, and nothing is required after its Error PDU",
             "Error PDUs are compared by type and framing only, plus code 4 in a supported version for the unsupported-version case",
